@@ -14,7 +14,10 @@ def workdir(sub=None):
 
 
 def scratch(pid):
-    d = workdir("run-" + pid)
+    """A fresh scratch directory for one run of a check.  Runs against different trees (VERIF_REPO: the scratch
+    worktrees of bin/seedtest) get different directories, so that they can run side by side."""
+    tag = "" if REPO == "/repo" else "-" + hashlib.sha1(REPO.encode()).hexdigest()[:8]
+    d = workdir("run-" + pid + tag)
     shutil.rmtree(d, ignore_errors=True)
     os.makedirs(d)
     return d
